@@ -235,6 +235,12 @@ func validateRequestOp(op *regattapb.RequestOp) error {
 
 // Iterator returns open pebble.Iterator it is an API consumer responsibility to close it.
 func (t *ActiveTable) Iterator(ctx context.Context, req *regattapb.RangeRequest) (iter.Seq[*regattapb.ResponseOp_Range], error) {
+	if len(req.Key) > key.LatestVersionLen {
+		return nil, serrors.ErrKeyLengthExceeded
+	}
+	if len(req.RangeEnd) > key.LatestVersionLen {
+		return nil, serrors.ErrKeyLengthExceeded
+	}
 	return readTable[iter.Seq[*regattapb.ResponseOp_Range]](t, ctx, req.Linearizable, fsm.IteratorRequest{RangeOp: &regattapb.RequestOp_Range{
 		Key:       req.Key,
 		RangeEnd:  req.RangeEnd,
